@@ -105,8 +105,10 @@ def run(ctx) -> None:
             ok = False
     rep.add("C17.R3", f"{grn.qname}:deferral-last", ok, grn.loc(), "the returned ready list is the result of the producer-first deferral" if ok else "the ready list can be returned without passing the producer-first deferral (a waiter could start in the same step as its producer)")
     dfn = db.func("runners._shared.helpers._defer_wait_for_nodes")
-    t = src(dfn.node)
-    ok = "other.name != node.name" in t and "in other.outputs" in t and "node.wait_for" in t and any(isinstance(n, ast.Return) and isinstance(n.value, ast.ListComp) and "not in deferred" in src(n.value) for n in walk_local(dfn.node))
+    from sa.pattern import solve
+
+    envs = solve(["for _N in ready: ...", "for _W in _N.wait_for: ...", "for _O in ready: ...", "_W in _O.outputs", "_O.name != _N.name", "_D.add(_N.name)", "[_X for _X in ready if _X.name not in _D]"], dfn.node)
+    ok = bool(envs)
     rep.add("C17.R3", f"{dfn.qname}:shape", ok, dfn.loc(), "a node is deferred iff one of its wait_for names is an output of another co-ready node" if ok else "deferral no longer compares wait_for names with the outputs of the other co-ready nodes")
 
     # ---- R4 ---------------------------------------------------------------------
